@@ -847,8 +847,9 @@ class Controller(object):
                 return exit_info
 
         # Now increase npt, if required
-        if params("restarts.increase_npt") and self.model.npt() < params("restarts.max_npt"):
-            num_pts_to_add = min(params("restarts.increase_npt_amt"), params("restarts.max_npt") - self.model.npt())
+        # (num_pts, not npt(): while the initial set is still growing npt() is the number of points so far, not the size of the set)
+        if params("restarts.increase_npt") and self.model.num_pts < params("restarts.max_npt"):
+            num_pts_to_add = min(params("restarts.increase_npt_amt"), params("restarts.max_npt") - self.model.num_pts)
             # First n points will be random orthogonal directions; the rest will be purely random directions
             # sl <= xopt + dirn <= su   -or equivalently-   sl-xopt <= dirn <= su-xopt
             xopt = self.model.xopt()
